@@ -15,7 +15,7 @@ def check(tier):
     n += lexcommon.lex_replay(rep, pvh, ["MC_PongoDoc_plain_q.cfg"] if q else ["MC_PongoDoc_plain_t.cfg"], KINDS,
                               module="MC_PongoDoc", cmd="doc-replay")
     n += lexcommon.fixture_traces(rep, pvh, KINDS)
-    rep.cov["traces_validated_against_impl"] = rep.extra.get("fixture_traces", 0)
+    rep.cov["traces_validated_against_impl"] += n
     rep.assumptions += ["comments and verbatim blocks are generated next to non-whitespace text or the document boundary",
                         "byte-level model: columns and spans are counted in bytes"]
     return rep.finish(
